@@ -11,3 +11,4 @@ import WindVerif.Props.C19
 import WindVerif.Props.C11
 import WindVerif.Props.C12
 import WindVerif.Props.C13
+import WindVerif.Props.C20
